@@ -279,6 +279,43 @@ def run(ctx):
         o = outcome(bt.TimeDelta, bad)
         if o[0] != "err":
             ctx.violation(conv="TimeDelta(seconds)", value=repr(bad), observed=show(o), required="an exception")
+    # ---- the result is a function of the value, not of the calling thread's decimal context ----------------------
+    # (rounding mode and precision are inherited by every decimal.localcontext(); money / fixed-point code changes them)
+    import decimal
+    probes = []
+    for _ in range(40 if ctx.quick else 1500):
+        c = rng.random()
+        if c < 0.4:
+            probes.append(("TimeDelta(Decimal)", Decimal(rng.choice(["0.1", "-0.1", "1e-20", "2.5e-20", "100.01234567890123456789", "1.0000000000000000000000001",
+                                                  str(rng.randint(-10**20, 10**20)) + "e-" + str(rng.randint(0, 30))]))))
+        elif c < 0.55:
+            probes.append(("TimeDelta(float)", rng.choice([0.1, -0.3, 1e-19, 1.5 * 2.0**-64, rng.uniform(-1e6, 1e6)])))
+        elif c < 0.8:
+            probes.append(("ht->bt", tv.gen_ht_td(rng)))
+        else:
+            probes.append(("bt->ht->bt", rand_ticks(rng, True)))
+    def run_probe(kind, v):
+        if kind.startswith("TimeDelta("):
+            return outcome(lambda: bt.TimeDelta(v).ticks)
+        if kind == "ht->bt":
+            return outcome(lambda: convert_timedelta(bt.TimeDelta, tv.from_model("htTd", v)).ticks)
+        x = bt.TimeDelta.from_ticks(max(I128_MIN, min(I128_MAX, v)))
+        return outcome(lambda: (convert_timedelta(bt.TimeDelta, convert_timedelta(ht.timedelta, x)).ticks,
+                                bt.TimeDelta(x.precision_total_seconds()).ticks))
+    base = [run_probe(k, v) for k, v in probes]
+    for rounding in (decimal.ROUND_FLOOR, decimal.ROUND_CEILING, decimal.ROUND_DOWN, decimal.ROUND_UP, decimal.ROUND_HALF_UP,
+                     decimal.ROUND_HALF_DOWN, decimal.ROUND_05UP):
+        for prec in (28, 9, 200):
+            with decimal.localcontext() as actx:
+                actx.rounding, actx.prec = rounding, prec
+                got = [run_probe(k, v) for k, v in probes]
+            for (k, v), b, g in zip(probes, base, got):
+                ctx.case(("ambient", rounding, prec, k, repr(v)))
+                if g != b:
+                    ctx.violation(conv=k, value=repr(v), ambient_decimal_context=f"rounding={rounding} prec={prec}", observed=show(g)[:200],
+                                  required=show(b)[:200] + " (the result under the default context: the nearest tick)")
+                    break
+            ctx.count("ambient-context", rounding)
     # ---- Timing conversions keep mode and member presence --------------------------------------------
     fams = {"dt": (dt.datetime, dt.timedelta), "ht": (ht.datetime, ht.timedelta), "bt": (bt.DateTime, bt.TimeDelta)}
 
